@@ -187,8 +187,25 @@ def check(ctx):
                 node=node, nontrivial=(kind != 'for'))
     run.floor('C18.terminates', 5)
 
+    # ---- C18.map / blank / prefix: by interpretation when possible --------------------------------------------------------------------
+    sem = _indenter_by_interpretation(ctx, ind)
+    if sem is not None:
+        n_runs, bad = sem
+        texts = {'C18.map': ('the number and order of the lines is preserved and each keeps its text', 'lines: '),
+                 'C18.blank': ('blank lines stay empty (the bare glyph in bullet positions): no trailing whitespace', 'blank lines: '),
+                 'C18.prefix': ('every other line gets exactly the configured whitespace, or the glyph prefix with continuation lines '
+                                'aligned to the text after the glyph', 'prefix: ')}
+        for rule_, (good, lead) in texts.items():
+            b_ = bad.get(rule_, [])
+            run.add(rule_, to_list.module.name, to_list.qualname, f'{n_runs} indenter configurations x line sequences', not b_,
+                    good + f' (to_list interpreted on {n_runs} configuration / line-sequence pairs)' if not b_ else
+                    lead + '; '.join(b_[:3]))
+        if bad.get('C18.agree'):
+            run.violation('C18.agree', to_str.module.name, to_str.qualname, 'to_str vs to_list',
+                          'string form and list form disagree: ' + '; '.join(bad['C18.agree'][:2]))
+        run.stats['indenter_runs_interpreted'] = n_runs
+    views = to_list_views(ctx) if sem is None else {}
     # ---- C18.map ------------------------------------------------------------------------------------------------------------
-    views = to_list_views(ctx)
     run.stats['to_list_views'] = sorted(views)
     for label in ('NONE', 'ALL', 'FIRST_ONLY'):
         if label in views:
@@ -199,12 +216,13 @@ def check(ctx):
     for label in ('NONE', 'ALL', 'FIRST_ONLY'):
         if label in views:
             n_prefix += _blank_rule(ctx, views[label])
-    if n_prefix < 3:
+    if n_prefix < 3 and sem is None:
         run.error('C18.blank', to_list.module.name, to_list.qualname, 'prefix expressions',
                   f'only {n_prefix} prefixing expressions recognised in the three views of to_list (4 on the reference tree)')
 
     # ---- C18.prefix ----------------------------------------------------------------------------------------------------------
-    _prefix_rule(ctx, ind)
+    if sem is None:
+        _prefix_rule(ctx, ind)
 
     # ---- C18.header ----------------------------------------------------------------------------------------------------------
     for m in list(tb.methods.values()) + list(tb.setters.values()):
@@ -233,6 +251,97 @@ def check(ctx):
                     'only the content lines are indented' if ok else
                     f'indent() feeds `{ast.unparse(c.args[0]) if c.args else ""}` to the indentizer', node=c)
     run.floor('C18.header', 3)
+
+
+def _long_sequences(ind: ClassInfo) -> List[List[str]]:
+    """Line sequences longer than every integer the indenter compares anything with (a behaviour that sets in beyond some
+    number of lines must show up): lengths K + 1 and K + 2 for the largest such constant K (at least 3)."""
+    k = 3
+    for m in list(ind.methods.values()):
+        for n in ast.walk(m.node):
+            if isinstance(n, ast.Compare):
+                for c in [n.left] + list(n.comparators):
+                    if isinstance(c, ast.Constant) and isinstance(c.value, int) and not isinstance(c.value, bool) and 0 <= c.value <= 64:
+                        k = max(k, c.value)
+    base = ['x', '', ' y ', 'x']
+    return [[base[i % 4] for i in range(n)] for n in (k + 1, k + 2)]
+
+
+def _indenter_by_interpretation(ctx, ind: ClassInfo):
+    """Indentizer.to_list / to_str interpreted (dznverif.scenario, E6) for: spaces 0 / 1 / 4 or tab  x  no bullets / all lines /
+    first line only with a glyph shorter ('-') and longer ('>>>>>') than the indent width  x  every sequence of up to two
+    lines (and some of three) over {'' , '  ', 'x', ' y '}.  Expected, from the statement of C18: as many lines, in order;
+    a blank line stays '' (the bare glyph where a bullet goes); any other line is <whitespace><line>, a bulleted line
+    (<glyph prefix><line>).strip(); whitespace is n spaces or a tab, in bullet mode as wide as the glyph prefix (glyph + ' '
+    padded to n); to_str is the lines joined with and ended by EOL.  The indenter looks at a line only through strip() and
+    concatenation, so blank / whitespace-only / padded / plain lines are all the cases there are.
+    (number of runs, {rule: [disagreements]}) or None when the code cannot be interpreted."""
+    from ..scenario import Interp, EnumV, Obj, Raised, Undecided
+    import itertools
+    prog = ctx.prog
+    indentor = prog.cls('text_gen', 'Indentor')
+    blm = prog.cls('text_gen', 'BulletListMode')
+    bl = prog.cls('text_gen', 'BulletList')
+    to_list, to_str = prog.lookup_method(ind, 'to_list'), prog.lookup_method(ind, 'to_str')
+    if None in (indentor, blm, bl, to_list, to_str):
+        return None
+    alphabet = ['', '  ', 'x', ' y ']
+    seqs = [list(s_) for n in (0, 1, 2) for s_ in itertools.product(alphabet, repeat=n)] + \
+        [['x', '', 'x'], ['', 'x', '  '], [' y ', 'x', 'x'], ['', '', '']]
+    seqs += _long_sequences(ind)
+    bad: Dict[str, List[str]] = {}
+    n_runs = 0
+    try:
+        for ind_kind, n in (('SPACES', 0), ('SPACES', 1), ('SPACES', 4), ('TAB', 4)):
+            for mode, glyph in ((None, None), ('ALL', '-'), ('ALL', '>>>>>'), ('FIRST_ONLY', '-'), ('FIRST_ONLY', '>>>>>')):
+                it = Interp(prog)
+                it.MAX_STEPS = 3000000
+                blo = it.construct(bl, [], {'mode': EnumV(blm, mode), 'glyph': glyph}) if mode else None
+                try:
+                    izr = it.construct(ind, [], {'indentor': EnumV(indentor, ind_kind), 'spaces_count': n, 'bullet_list': blo})
+                except Raised as exc:
+                    bad.setdefault('C18.prefix', []).append(f'{ind_kind}/{n}/{mode}/{glyph}: the configuration is refused ({exc.name})')
+                    continue
+                if ind_kind == 'TAB':
+                    ws, bullet = '\t', (glyph + '\t') if mode else None
+                else:
+                    bullet = format(glyph + ' ', f'<{n}') if mode else None
+                    ws = ' ' * (len(bullet) if mode else n)
+                for lines in seqs:
+                    n_runs += 1
+                    cfg = f'{ind_kind.lower()} {n}, bullets {mode} {glyph!r}, lines {lines!r}'
+                    try:
+                        got = it.call_function(to_list, [list(lines)], {}, self_val=izr)
+                        got_s = it.call_function(to_str, [list(lines)], {}, self_val=izr)
+                    except Raised as exc:
+                        bad.setdefault('C18.map', []).append(f'{cfg}: raises {exc.name.split(".")[-1]}')
+                        continue
+                    if isinstance(got, tuple):
+                        got = list(got)
+                    if not isinstance(got, list) or not isinstance(got_s, str):
+                        raise Undecided('to_list / to_str do not yield a list / a string')
+                    want = []
+                    for i, ln in enumerate(lines):
+                        if mode == 'ALL' or (mode == 'FIRST_ONLY' and i == 0):
+                            want.append((bullet + ln).strip())
+                        else:
+                            want.append(ws + ln if ln.strip() else '')
+                    if len(got) != len(want):
+                        bad.setdefault('C18.map', []).append(f'{cfg}: {len(got)} lines come out')
+                    elif got != want and mode != 'FIRST_ONLY' and sorted(got) == sorted(want):
+                        bad.setdefault('C18.map', []).append(f'{cfg}: the lines come out in another order: {got!r}')
+                    else:
+                        for i, (g_, w_) in enumerate(zip(got, want)):
+                            if g_ != w_:
+                                rule_ = 'C18.blank' if not lines[i].strip() else 'C18.prefix'
+                                bad.setdefault(rule_, []).append(f'{cfg}: line {i} is {g_!r}, expected {w_!r}')
+                                break
+                    # every line followed by one EOL (for no lines at all: nothing, or the lone EOL of the reference tree)
+                    if got_s != '\n'.join(got) + '\n' and got_s != ''.join(x + '\n' for x in got):
+                        bad.setdefault('C18.agree', []).append(f'{cfg}: to_str gives {got_s!r} for the list {got!r}')
+    except Undecided:
+        return None
+    return n_runs, bad
 
 
 def _map_rule(ctx, to_list: FuncInfo):
